@@ -361,6 +361,31 @@ def rule_global_state(ctx: Ctx, prog: Program, extra_dir_positive_control: Optio
                 else:
                     ctx.ok("R-GLOBAL-STATE", f"{f.qualname}: mutable default '{pn}' is only read / copied")
     ctx.floor("R-GLOBAL-STATE:mutable-defaults", n_def, 2)
+    # configuration arrays of a solver are private copies: np.asarray / np.array(copy=False) return the caller's own array when the type
+    # already matches, so whatever the engine (a registered heuristic keeping counters in its parameter table) writes lands in the caller's
+    # table and in every later solver built from it
+    n_conv = 0
+    for f in prog.all_functions():
+        if f.name != "__init__" or not f.module.startswith(f"{prog.package}.solvers"):
+            continue
+        params = set(f.params)
+        for n in ast.walk(f.node):
+            if not (isinstance(n, ast.Assign) and len(n.targets) == 1 and isinstance(n.targets[0], ast.Attribute) and isinstance(n.value, ast.Call)):
+                continue
+            fnm = ast.unparse(n.value.func).split(".")[-1]
+            srcs = [x.id for a_ in n.value.args[:1] for x in ast.walk(a_) if isinstance(x, ast.Name) and x.id in params]
+            if not srcs or fnm not in ("array", "asarray", "asanyarray", "ascontiguousarray", "asfortranarray", "require"):
+                continue
+            n_conv += 1
+            nocopy = fnm != "array" or any(kw.arg == "copy" and isinstance(kw.value, ast.Constant) and kw.value.value in (False, None) for kw in n.value.keywords)
+            if nocopy:
+                ctx.violation("R-GLOBAL-STATE", f.path, f.qualname, f"argument-aliased:{n.targets[0].attr}", f"{f.path}:{n.lineno}",
+                              f"{f.qualname} keeps `{srcs[0]}` through {fnm}(...), which returns the caller's own array when the element type already matches: "
+                              "the solver's configuration is then shared with the caller and with every other solver built from the same array, and what a "
+                              "registered heuristic writes into its parameter table during one search is seen by the next")
+            else:
+                ctx.ok("R-GLOBAL-STATE", f"{f.qualname}: self.{n.targets[0].attr} is a private copy of the argument `{srcs[0]}`")
+    ctx.floor("R-GLOBAL-STATE:configuration-copies", n_conv, 3)
     # the solver constructor does not write into the problem except through init()
     for mod, cls in ((f"{prog.package}.solvers.backtrack_solver", "BacktrackSolver"), (f"{prog.package}.solvers.solver", "Solver")):
         fn = prog.func(mod, f"{cls}.__init__")
